@@ -129,6 +129,16 @@ func evalC03(c pipeCase) *Failure {
 	if quitIdx >= 0 && !conn.Closed() {
 		return failf("c03|quit-open", "%s: the connection was not closed after QUIT", what)
 	}
+	// whatever this connection did, the next connection to the same server gets its replies
+	next := connsim.NewPreloaded(2, [][]byte{resp.Cmd("PING").Bytes()})
+	if o2 := connsim.Serve(srv, next, serveTimeout()); o2.TimedOut {
+		return stallFailure("c03|next-connection", what+": a following connection to the same server")
+	} else if o2.Panic != nil {
+		return failf("c03|panic|"+panicKey(o2), "%s: panic on a following connection: %v", what, o2.Panic)
+	}
+	if fr, _, _ := next.Frames(); len(fr) != 1 || !fr[0].Equal(resp.S("PONG")) {
+		return failf("c03|next-connection", "%s: a following connection to the same server got %v for PING", what, fr)
+	}
 	if conn.Closes() == 0 {
 		return failf("c03|not-closed", "%s: the connection loop returned without closing the connection", what)
 	}
